@@ -1029,10 +1029,12 @@ class StubsStringGenerator:
         if shortest_reexport_module_id != self._get_module_id() and shortest_reexport_module is not None:
             # Get alias
             alias = None
+            node_qname = node.id.replace("/", ".")
             for qualified_import in shortest_reexport_module.qualified_imports:
-                # The name has to match as a whole, "FooBar" is not a reexport of "Bar"
+                # The import has to refer to this node: the names have to match as a whole ("FooBar" is not a reexport of
+                # "Bar") and the path of the import has to be the end of the path of the node ("_b.Foo" is not "_a.Foo")
                 imported_qname = qualified_import.qualified_name
-                if imported_qname == node.name or imported_qname.endswith(f".{node.name}"):
+                if node_qname == imported_qname or node_qname.endswith(f".{imported_qname}"):
                     alias = qualified_import.alias
 
             if alias:
